@@ -65,7 +65,7 @@ func checkPass(ctx *base.EntryContext) (bool, *Rule, uint32) {
 				curCount = 0
 				logging.Error(errors.New("negative concurrency"), "Negative concurrency in isolation.checkPass()", "rule", rule)
 			}
-			if curCount+batchCount > threshold {
+			if uint64(curCount)+uint64(batchCount) > uint64(threshold) {
 				return false, rule, curCount
 			}
 		}
